@@ -111,6 +111,11 @@ pub enum CtxOp {
     Publish,
     PeerCall,
     Lookup,
+    /// the handler posted Note(id) to its own actor
+    SelfSend(u32),
+    /// the future given to delayed_exec for this timer was dropped (logged for the timers armed
+    /// with a duration nobody will see the end of: such a future lives as long as its actor)
+    ExecDropped(u8),
 }
 
 #[derive(Clone, Copy, Debug, PartialEq, Eq, Hash)]
@@ -186,6 +191,10 @@ pub enum Action {
     PeerCall { key: u8, id: u32 },
     /// look up (and thereby spawn on demand) the service `Probe<k>` (k = 1 or 2) and call it
     LookupService { k: u8 },
+    /// the handler posts Note(id) to its own actor through a weak sender its context makes
+    /// (`force`: try_force_send, otherwise the waiting try_send - unbounded mailboxes only, an
+    /// actor that waits for room in its own full mailbox waits forever)
+    SelfNote { id: u32, force: bool },
     /// put the weak sender and the weak caller this actor's context makes where clients can pick
     /// them up (`Op::AdoptCtx`): handles minted by the context are handles like any other
     ShareCtxHandles,
@@ -213,6 +222,9 @@ pub struct RoleCfg {
     pub tick_work: Work,
     /// ... except for the n-th tick this role handles (1-based), which does this instead
     pub slow_tick: Option<(u32, Work)>,
+    /// length of one tick of the timers this scene's actors register, in microseconds (role 0's
+    /// value counts; 1000 unless a scene wants durations below the clock's resolution)
+    pub tick_us: u32,
     /// context operation performed by the handler of the Note/Ask with this id (after its work)
     pub msg_actions: Vec<(u32, Action)>,
 }
@@ -232,6 +244,7 @@ impl Default for RoleCfg {
             default_work: Work::default(),
             tick_work: Work::default(),
             slow_tick: None,
+            tick_us: 1000,
             msg_actions: vec![],
         }
     }
@@ -291,6 +304,7 @@ pub fn reset(roles: Vec<RoleCfg>) {
         w.log.clear();
         w.loghash = 0x1234_5678;
         w.teardown = false;
+        w.tick_us = roles.first().map(|r| r.tick_us).unwrap_or(1000);
         w.starts = vec![0; roles.len()];
         w.ticks = vec![0; roles.len()];
         w.roles = roles;
@@ -298,7 +312,6 @@ pub fn reset(roles: Vec<RoleCfg>) {
         w.default_role = [0; 4];
         w.store.clear();
         w.invocations.clear();
-        w.tick_us = 1000;
     });
     CTX_SHARE.with(|c| *c.borrow_mut() = None);
 }
@@ -390,7 +403,7 @@ pub fn log_exec(ev: ExecEvent) {
 
 thread_local! {
     /// weak handles made by an actor's own context (`Action::ShareCtxHandles`)
-    pub static CTX_SHARE: RefCell<Option<(hannibal::WeakSender<Note>, hannibal::WeakCaller<Ask>)>> = const { RefCell::new(None) };
+    pub static CTX_SHARE: RefCell<Option<(hannibal::WeakSender<Note>, hannibal::WeakCaller<Ask>, Option<hannibal::WeakAddr<P>>)>> = const { RefCell::new(None) };
 }
 
 pub fn store_put(s: Stored) -> u8 {
@@ -412,8 +425,25 @@ pub fn store_peek_addr(key: u8) -> Option<Addr<Probe<0>>> {
     })
 }
 
+/// two tick counts that stand for durations no run will see the end of
+pub const FOREVER: u32 = u32::MAX;
+pub const AGES: u32 = u32::MAX - 1;
+
 pub fn ms(t: u32) -> Duration {
-    Duration::from_micros(t as u64 * W.with(|w| w.borrow().tick_us) as u64)
+    match t {
+        FOREVER => Duration::MAX,
+        // (a count of milliseconds that does not fit 64 bits)
+        AGES => Duration::from_secs(1 << 62),
+        _ => Duration::from_micros(t as u64 * W.with(|w| w.borrow().tick_us) as u64),
+    }
+}
+
+/// the number of virtual ticks a timer duration of `t` scene ticks takes (for the oracles)
+pub fn eff_ticks(t: u32, tick_us: u32) -> u64 {
+    match t {
+        FOREVER | AGES => u64::MAX / 4,
+        _ => (t as u64 * tick_us as u64).div_ceil(1000),
+    }
 }
 
 /// Virtual sleep usable from `Send` handler futures.
@@ -641,8 +671,18 @@ impl<const K: u8> Probe<K> {
             }
             Action::DelayedExec { timer, delay } => {
                 let inst = self.inst;
+                struct Guard(Option<(u8, u8)>);
+                impl Drop for Guard {
+                    fn drop(&mut self) {
+                        if let Some((a, timer)) = self.0 {
+                            log(Ev::Ctx { a, op: CtxOp::ExecDropped(timer), ok: true });
+                        }
+                    }
+                }
+                let guard = Guard((delay >= AGES).then_some((role, timer)));
                 ctx.delayed_exec(
                     async move {
+                        let _guard = guard;
                         log(Ev::Enter {
                             a: role,
                             inst,
@@ -712,9 +752,16 @@ impl<const K: u8> Probe<K> {
                     ctxlog(CtxOp::PeerCall, r.is_ok());
                 }
             }
+            Action::SelfNote { id, force } => {
+                let w = ctx.weak_sender::<Note>();
+                let ok = if force { w.try_force_send(Note(id)).is_ok() } else { w.try_send(Note(id)).await.is_ok() };
+                ctxlog(CtxOp::SelfSend(id), ok)
+            }
             Action::ShareCtxHandles => {
-                let pair = (ctx.weak_sender::<Note>(), ctx.weak_caller::<Ask, crate::world::Reply>());
-                CTX_SHARE.with(|c| *c.borrow_mut() = Some(pair));
+                // (the weak address is typed by the actor: kept for Probe<0> only)
+                let wa = ctx.weak_address().and_then(|w| (&w as &dyn std::any::Any).downcast_ref::<hannibal::WeakAddr<P>>().cloned());
+                let triple = (ctx.weak_sender::<Note>(), ctx.weak_caller::<Ask, crate::world::Reply>(), wa);
+                CTX_SHARE.with(|c| *c.borrow_mut() = Some(triple));
             }
             Action::LookupService { k } => {
                 let ok = if k == 1 {
